@@ -2162,6 +2162,7 @@ impl Kanata {
             && self.layout.b().extra_waiting.is_empty()
             && self.layout.b().last_press_tracker.tap_hold_timeout == 0
             && self.layout.b().oneshot.keys.is_empty()
+            && self.layout.b().oneshot.pause_input_processing_ticks == 0
             && self.layout.b().active_sequences.is_empty()
             && self.layout.b().tap_dance_eager.is_none()
             && self.layout.b().action_queue.is_empty()
